@@ -2,7 +2,9 @@
 import json, os, glob
 V = os.path.dirname(os.path.dirname(os.path.abspath(__file__)))
 CHECKS = {}
-for f in sorted(glob.glob(os.path.join(V, "checks", "C*.json"))):
+for f in sorted(glob.glob(os.path.join(V, "checks", "*.json"))):
+    if os.path.basename(f) in ("not_applicable.json", "engines.json"):
+        continue
     CHECKS[os.path.basename(f)[:-5]] = json.load(open(f))
 NOT_APPLICABLE = json.load(open(os.path.join(V, "checks", "not_applicable.json")))
 ENGINES = json.load(open(os.path.join(V, "checks", "engines.json")))
